@@ -23,7 +23,7 @@ VARIABLES objs,      \* sequence of [buf, kind, contig]: live signals
           hist       \* observation: operations performed
 vars == <<objs, ver, sanc, hist>>
 
-Kinds == {"dp", "bb", "st", "in"}      \* DualPolarization, Baseband, FullStokes, Intensity
+Kinds == {"dp", "bb", "st", "in", "rd", "sg"}   \* DualPolarization, Baseband, FullStokes, Intensity, Radio, plain Signal
 
 \* name, accepted kinds, result kind ("same" or a kind), result placement, internal write target
 \* res:   "view"  = result shares the input's buffer (basic slicing, like(), views)
